@@ -357,7 +357,12 @@ func ProofAuthenticate(cfg ProofConfig, inner AuthenticateFunc) (AuthenticateFun
 	}
 	var cache *nonceCache
 	if !cfg.DisableReplayCache {
-		cache = newNonceCache(time.Duration(cfg.SkewSeconds)*time.Second, capacity, cfg.Now)
+		// A timestamp stays acceptable from ts-skew to ts+skew, so a proof first
+		// presented at the early edge can still be presented 2*skew seconds
+		// later. The nonce must be remembered for that whole span (plus one
+		// second, because the window is compared on whole seconds while the
+		// cache expires on the full-precision clock).
+		cache = newNonceCache(time.Duration(2*cfg.SkewSeconds+1)*time.Second, capacity, cfg.Now)
 	}
 	required := cfg.Mode == ProofModeRequire
 	local := cfg
